@@ -33,6 +33,11 @@ type c19Case struct {
 	// OutExists: the output file exists already and is longer than the container (a rebuild after the
 	// program shrank); InPlace: 1 the output path is the input path (convert in place), 2 the output path
 	// is a symbolic link to the input file
+	// Name2: -nam is given twice on the command line, first Name2 then Name (the flag package lets the last one win)
+	Name2 string `json:"name_given_first,omitempty"`
+	// FullDisk: the output goes to /dev/full (every write fails with ENOSPC): the tool cannot emit the container
+	// and must say so with a non-zero exit status
+	FullDisk  bool `json:"output_device_full,omitempty"`
 	OutExists bool `json:"output_exists_longer,omitempty"`
 	InPlace   int  `json:"in_place,omitempty"`
 }
@@ -109,6 +114,9 @@ func c19Run(dir string, bin string, cs *c19Case) []string {
 			return []string{"framework: " + err.Error()}
 		}
 	}
+	if cs.FullDisk {
+		outArg = "/dev/full"
+	}
 	switch cs.InPlace {
 	case 1:
 		outArg, outp = cs.File, in
@@ -143,6 +151,9 @@ func c19Run(dir string, bin string, cs *c19Case) []string {
 		args = append(args, "-bin", outArg)
 	} else {
 		args = append(args, "-cas", outArg)
+		if cs.Name2 != "" {
+			args = append(args, "-nam", cs.Name2)
+		}
 		if !cs.NoName {
 			args = append(args, "-nam", cs.Name)
 		}
@@ -161,6 +172,12 @@ func c19Run(dir string, bin string, cs *c19Case) []string {
 	}
 	var errb bytes.Buffer
 	cmd.Stderr = &errb
+	if cs.FullDisk {
+		if err := cmd.Run(); err == nil {
+			return []string{fmt.Sprintf("%s %v: every write to the output fails (no space left on device), yet the exit status is 0: the container was not emitted and nobody is told", cs.Tool, args)}
+		}
+		return nil
+	}
 	if err := cmd.Run(); err != nil {
 		return []string{fmt.Sprintf("%s %v: exit %v: %s", cs.Tool, args, err, errb.String())}
 	}
@@ -265,6 +282,19 @@ func checkC19(c *Ctx) {
 	} else {
 		c.Set("piped_input", "skipped: no /dev/stdin here")
 	}
+	// -nam given twice (the last one counts); the output device is full
+	for _, l := range []int{1, 300} {
+		for _, pair := range [][2]string{{"GAME01", "AB"}, {"GAME01", ""}, {"AB", "GAME01"}, {"ABCDEFGHIJ", "x"}, {"x", "ABCDEFGHIJ"}} {
+			cases = append(cases, c19Case{Tool: "cim2cas", Len: l, Off: -1, Content: 1, Name: pair[1], Name2: pair[0], File: "g.cim"})
+		}
+	}
+	if _, err := os.Stat("/dev/full"); err == nil {
+		for _, tool := range []string{"cim2bin", "cim2cas"} {
+			for _, l := range []int{1, 100, 4000, 4089, 4090, 5000, 40000} {
+				cases = append(cases, c19Case{Tool: tool, Len: l, Off: -1, Content: 1, Name: "FULL", File: "in.cim", FullDisk: true})
+			}
+		}
+	}
 	// the output file exists already and is longer; the image is converted in place
 	for _, tool := range []string{"cim2bin", "cim2cas"} {
 		for _, l := range []int{1, 37, 4096, 65536 - 0xA000} {
@@ -301,7 +331,7 @@ func checkC19(c *Ctx) {
 	c.Transitions = c.Evaluations
 	c.Traces = c.Evaluations
 	c.Exhaustive = true
-	c.Rule = fmt.Sprintf("%d runs of the command binaries built from the current tree: tools {cim2bin, cim2cas} x offsets {0,1,0x4000, flag omitted (=0xA000), 0xA000, 0xFFFE, 0xFFFF} x image lengths {1,2,255,256,4096,65535-off,65536-off (end address = 0xFFFF)} (thorough: 9 more) x contents {zeros, ramp, FF, header look-alike} x for cim2cas names {omitted (default = file name, also shorter and longer than six), \"\", 1,2,5,6,7,12 characters, with a space, with a dot}; the image also piped in through /dev/stdin and reached through a symbolic link; the output file already existing and longer than the container; conversion in place (output path = input path, or a symbolic link to it); output compared byte for byte with a header model (0xFE/start/end/exec; sync, 10 x D0, name[6], sync, start/end/exec) + unmodified body. All cases are distinct and non-trivial (each produces a container).", len(cases))
+	c.Rule = fmt.Sprintf("%d runs of the command binaries built from the current tree: tools {cim2bin, cim2cas} x offsets {0,1,0x4000, flag omitted (=0xA000), 0xA000, 0xFFFE, 0xFFFF} x image lengths {1,2,255,256,4096,65535-off,65536-off (end address = 0xFFFF)} (thorough: 9 more) x contents {zeros, ramp, FF, header look-alike} x for cim2cas names {omitted (default = file name, also shorter and longer than six), \"\", 1,2,5,6,7,12 characters, with a space, with a dot}; the image also piped in through /dev/stdin and reached through a symbolic link; the output file already existing and longer than the container; conversion in place (output path = input path, or a symbolic link to it); -nam given twice (the last one counts); the output on a full device (/dev/full: non-zero exit status required); output compared byte for byte with a header model (0xFE/start/end/exec; sync, 10 x D0, name[6], sync, start/end/exec) + unmodified body. All cases are distinct and non-trivial (each produces a container).", len(cases))
 	c.Bound = "lattice " + c.Tier
 	c.Sample(cases[0])
 	c.Sample(cases[len(cases)-1])
